@@ -228,6 +228,72 @@ def run(ck):
         print('GAPS', holder.get('gaps'))
     ck.rule('C13.R6 Ok returns of the extension walker', n6, 1)
     ck.rule('C13.R6 windows of the extension area read by the walker', holder.get('n', 0), 3)
+    # ------------------------------------------------------------------ R9 the walker refuses a chain only for a window that is really missing
+    # Two scenarios on the walker alone, the manager's answer restricted to one variant and its announced size `s` kept symbolic:
+    #  (final)     every answer is Final(s) and the area holds the s data bytes (area >= read so far + s): a final mandatory
+    #              extension ends the chain in place of the protocol type, nothing may be demanded after its data - every
+    #              return after the answer is Ok;
+    #  (non-final) every answer is NonFinal(s) and the area holds the data and the type field that follows (area >= read so far
+    #              + s + 2): a refusal is only possible once everything up to that point has been read (it then concerns a
+    #              later window), and any refusal is BufferTooSmall.
+    fin_i, nonfin_i = variant_index(f, MHE, 'Final'), variant_index(f, MHE, 'NonFinal')
+    xerr = [t for t in f.adts if t.endswith('ExtensionHeaderError')]
+    n9 = 0
+    for scen, keep, extra in (('final', fin_i, 0), ('non-final', nonfin_i, 2)):
+        h9 = {}
+
+        def start9(I, w, args, _h=h9):
+            _h['root'] = args[area_i - 1][1].root
+            _h['len'] = args[area_i - 1][3]
+            w.mem[('G', '~rd_end')] = ('int', Lin.c(0))
+
+        def slice9(I, w, frame, site, base, lo, hi, _h=h9):
+            if base.root != _h.get('root') or base.path:
+                return
+            w.mem[('G', '~rd_end')] = ('int', hi)
+            cov = w.mem.get(('G', '~cover'))
+            if cov is not None and cov[0] == 'int' and w.store.entails_eq(hi, cov[1]):
+                w.mem.pop(('G', 'owed'), None)        # everything the scenario guarantees has been read
+
+        def answer9(I, w, frame, site, args, res, _h=h9, _keep=keep, _extra=extra):
+            if res[0] != 'enum':
+                return None
+            alts = tuple(a for a in res[1] if a[0] == _keep)
+            if len(alts) != 1 or len(alts[0][1]) != 1 or alts[0][1][0][0] != 'int':
+                _h['lost'] = True
+                return None
+            size = alts[0][1][0][1]
+            end = w.mem.get(('G', '~rd_end'))
+            if end is None or end[0] != 'int':
+                _h['lost'] = True
+                return None
+            cover = end[1] + size + _extra
+            w.store = w.store.add(le(cover, _h['len']))
+            w.mem[('G', '~cover')] = ('int', cover)
+            w.mem[('G', 'owed')] = ('enum', ((1, ()),))
+            _h['asked'] = _h.get('asked', 0) + 1
+            return ('enum', alts)
+        w9 = ck.analyse(WALK, {'kslots': 8, 'slice_hook': slice9, 'trait_result_hooks': {MGR: answer9}}, assume=start9, tag='c13-refuse-' + scen)
+        if h9.get('lost') or not h9.get('asked'):
+            raise Tooling(f"anchor lost: C13.R9 ({scen}) the manager's answer / the area read so far could not be followed in the extension walker")
+        for w, rv in w9.rets:
+            cov = w.mem.get(('G', '~cover'))
+            if cov is None:
+                continue          # no mandatory extension met on this path
+            for v, fs in (ret_alts(rv) or []):
+                n9 += 1
+                ck.obligations += 1
+                end = w.mem.get(('G', '~rd_end'))
+                if v == 0:
+                    ck.discharged += 1
+                    continue
+                if scen == 'final':
+                    ck.finding('C13.R9', WALK, 'refused:final', 'the extension walker refuses a chain ending in a known final mandatory extension although the extension area holds the announced data bytes (nothing follows a final mandatory extension: no type field may be demanded)')
+                elif ghost(w, 'owed') is None or (end is not None and end[0] == 'int' and cov[0] == 'int' and w.store.entails(le(cov[1], end[1]))):
+                    ck.discharged += 1
+                else:
+                    ck.finding('C13.R9', WALK, 'refused:non-final', 'the extension walker refuses a chain at a known non-final mandatory extension although the extension area holds its announced data bytes and the 2-byte type field that follows' + (f" [read so far {end[1].pretty() if end and end[0] == 'int' else '?'}, present {cov[1].pretty() if cov[0] == 'int' else '?'}]" if os.environ.get('VERIF_DEBUG_R9') else ''))
+    ck.rule('C13.R9 returns of the extension walker after a known mandatory extension whose bytes are present (final / non-final scenario)', n9, 3)
     # ------------------------------------------------------------------ R8 chains of one, two and three extensions, exactly
     bounded_chain_rules(ck)      # (also run by c06.run for encap_ext, on the same cached analyses)
     # ------------------------------------------------------------------ R7 bundled managers
@@ -258,7 +324,8 @@ def run(ck):
     ck.assumptions += ['chains of ANY length: the bytes written by encap_ext form gap-free runs (adjacent writes coalesce, overlaps are reported at the write) and the walker reads contiguously (R6); that the run ends at the returned length, and that no write leaves the buffer, relates two loops over the extension list - decided exactly for chains of 1, 2 and 3 extensions (R8: both loops unrolled, one symbolic data length per extension), declined and listed beyond that',
                        'R8 takes Extension::len(e) = data length of e + 2 as the definition of the per-extension measure; R2 checks on the same run that the function has exactly that table',
                        'equality of the recovered extension list follows on paper from R8 (sender layout for short chains), R6 (receiver reads the same windows contiguously), R1/R2 (one H-LEN table on both sides) and, for mandatory extensions, the manager announcing the size that was sent (assumption on the user-supplied manager)',
-                       'receivers with partially knowing managers are covered only through R5 (Unknown at any point of the chain drops the packet)']
+                       'receivers with partially knowing managers are covered only through R5 (Unknown at any point of the chain drops the packet)',
+                       'R9 covers the two mandatory arms of the walker; an over-strict refusal guard on the optional arm is not decided']
     return ck.finish(
         level='other',
         explanation=('Decided clauses of C13: (R1) path summaries of Extension::new against the constructor contract (Ok iff id < 0x600 and, for optional '
@@ -268,7 +335,9 @@ def run(ck):
                      'Unknown decap returns ErrorUnkownMandatoryHeader consuming exactly the packet before any storage is taken; (R6) the receiver reads the '
                      'extension area as contiguous windows and reports their total; (R7) tables of the two bundled managers; (R8) for chains of 1, 2 and 3 '
                      'extensions, with one symbolic data length per extension: no panic and nothing declined in encap_ext, the bytes written tile [0, returned '
-                     'length) exactly, and every id, data block, the displaced protocol type and the PDU sit at the offsets the standard gives.'),
+                     'length) exactly, and every id, data block, the displaced protocol type and the PDU sit at the offsets the standard gives; (R9) the walker, with '
+                     'the manager restricted to Final(s) resp. NonFinal(s) and the announced bytes (s resp. s + 2) assumed present at the answer, never '
+                     'refuses after a Final answer and never refuses before the guaranteed bytes are read after a NonFinal answer.'),
         trusted=['analysis/stdsum.py'])
 
 
